@@ -148,6 +148,31 @@ func init() {
 		{Kind: "calls", File: "v2/pkg/lexer/lexer.go", Func: "Lexer.readDigit", Name: "lexReadDigit", Match: []string{"if", "return", "for", "l.*", "runeIsDigit", "tok.*"}},
 		{Kind: "calls", File: "v2/pkg/lexer/lexer.go", Func: "Lexer.readFloat", Name: "lexReadFloat", Match: []string{"if", "return", "for", "l.*", "runeIsDigit", "tok.*"}},
 	}
+	// C17: the generator's visitor and the converter
+	ig := "v2/pkg/introspection/generator.go"
+	ic := "v2/pkg/introspection/converter.go"
+	im := []string{"if", "return", "for", "i.*", "j.*", "append", "strings.HasPrefix", "NewFullType", "NewField", "NewDirective", "make"}
+	specs["C17"] = []item{
+		{Kind: "calls", File: ig, Func: "introspectionVisitor.EnterObjectTypeDefinition", Name: "genObject", Match: im},
+		{Kind: "calls", File: ig, Func: "introspectionVisitor.LeaveObjectTypeDefinition", Name: "genObjectLeave", Match: im},
+		{Kind: "calls", File: ig, Func: "introspectionVisitor.EnterFieldDefinition", Name: "genField", Match: im},
+		{Kind: "calls", File: ig, Func: "introspectionVisitor.EnterInputValueDefinition", Name: "genInputValue", Match: im},
+		{Kind: "calls", File: ig, Func: "introspectionVisitor.EnterInterfaceTypeDefinition", Name: "genInterface", Match: im},
+		{Kind: "calls", File: ig, Func: "introspectionVisitor.EnterUnionMemberType", Name: "genUnionMember", Match: im},
+		{Kind: "calls", File: ig, Func: "introspectionVisitor.LeaveEnumValueDefinition", Name: "genEnumValue", Match: im},
+		{Kind: "calls", File: ig, Func: "introspectionVisitor.LeaveDirectiveDefinition", Name: "genDirective", Match: im},
+		{Kind: "calls", File: ig, Func: "introspectionVisitor.EnterRootOperationTypeDefinition", Name: "genRoot", Match: im},
+		{Kind: "calls", File: ig, Func: "introspectionVisitor.LeaveDocument", Name: "genLeaveDocument", Match: im},
+		{Kind: "calls", File: ig, Func: "introspectionVisitor.TypeRef", Name: "genTypeRef", Match: im},
+		{Kind: "calls", File: ig, Func: "introspectionVisitor.deprecationReason", Name: "genDeprecationReason", Match: im},
+		{Kind: "calls", File: ic, Func: "JsonConverter.importObject", Name: "convObject", Match: im},
+		{Kind: "calls", File: ic, Func: "JsonConverter.importInterface", Name: "convInterface", Match: im},
+		{Kind: "calls", File: ic, Func: "JsonConverter.importDirective", Name: "convDirective", Match: im},
+		{Kind: "calls", File: ic, Func: "JsonConverter.importEnum", Name: "convEnum", Match: im},
+		{Kind: "calls", File: ic, Func: "JsonConverter.importUnion", Name: "convUnion", Match: im},
+		{Kind: "calls", File: ic, Func: "JsonConverter.importType", Name: "convType", Match: im},
+		{Kind: "calls", File: "v2/pkg/engine/datasource/introspection_datasource/config_factory.go", Func: "NewIntrospectionConfigFactory", Name: "configFactory", Match: []string{"if", "return", "introspection.*", "gen.*", "generator.*"}},
+	}
 	// C19: message-type switches, close codes and call skeletons of the two protocol handlers, the read loop and the engine
 	tws := "execution/subscription/websocket/protocol_graphql_transport_ws.go"
 	lws := "execution/subscription/websocket/protocol_graphql_ws.go"
